@@ -88,18 +88,53 @@ fn gen_pipeline(r: &mut Rng) -> AffTree<2> {
     let rounds = 1 + r.below(4);
     let mut width = w;
     for k in 0..rounds {
-        let row = r.below(width);
-        match r.below(4) {
-            0 => t.compose::<false, false>(&schema::partial_leaky_ReLU(width, row, 0.5)),
-            1 => t.compose::<false, false>(&schema::partial_hard_tanh(width, row, -1.0, 1.0)),
-            _ => t.compose::<false, false>(&schema::partial_ReLU(width, row)),
+        // a step that panics (only possible on a modified library) ends the pipeline with the tree as it was before
+        // that step: if the step was an elimination, the case built from this tree reproduces the panic
+        let snapshot = t.clone();
+        let step = catch(AssertUnwindSafe(|| {
+            let mut t = t.clone();
+            let mut width = width;
+            let row = r.below(width);
+            match r.below(5) {
+                4 => {
+                    // an operand that went through an elimination of its own: its nodes carry cached states and
+                    // witnesses of ITS input space, which say nothing about the composed tree
+                    let w2 = 1 + r.below(2);
+                    let mut op = AffTree::<2>::from_aff(gen_aff(r, w2, width, 3));
+                    op.compose::<false, false>(&schema::partial_ReLU(w2, r.below(w2)));
+                    if r.chance(1, 2) {
+                        op.compose::<false, false>(&schema::partial_ReLU(w2, r.below(w2)));
+                    }
+                    op.infeasible_elimination();
+                    t.compose::<false, false>(&op);
+                    width = w2;
+                }
+                0 => t.compose::<false, false>(&schema::partial_leaky_ReLU(width, row, 0.5)),
+                1 => t.compose::<false, false>(&schema::partial_hard_tanh(width, row, -1.0, 1.0)),
+                _ => t.compose::<false, false>(&schema::partial_ReLU(width, row)),
+            }
+            (t, width)
+        }));
+        match step {
+            Ok((t2, w2)) => {
+                t = t2;
+                width = w2;
+            }
+            Err(_) => return snapshot,
         }
         if k + 1 < rounds && r.chance(1, 3) {
-            t.infeasible_elimination();
+            let before_elim = t.clone();
+            if catch(AssertUnwindSafe(|| t.infeasible_elimination())).is_err() {
+                return before_elim;
+            }
         }
         if r.chance(1, 3) {
             let w2 = 1 + r.below(3);
-            t.apply_func(&gen_aff(r, w2, width, 3));
+            let f = gen_aff(r, w2, width, 3);
+            let before = t.clone();
+            if catch(AssertUnwindSafe(|| t.apply_func(&f))).is_err() {
+                return before;
+            }
             width = w2;
         }
     }
